@@ -91,9 +91,13 @@ package consensus
 //@   ensures [C19] @oneValue gEncoded == old(gEncoded) + 1
 //@ func (*neoBlock).GetHashData
 //@   modifies gEncoded
+// what is encoded is this block's own header, not a copy that was changed on the way
+//@   at call *.EncodeBinary: assert [C19] @ownHeader recv.ConsensusData == b.base.ConsensusData && recv.Index == b.base.Index && recv.Timestamp == b.base.Timestamp && recv.Version == b.base.Version && recv.MerkleRoot == b.base.MerkleRoot && recv.PrevHash == b.base.PrevHash && recv.NextConsensus == b.base.NextConsensus
 //@   ensures [C19] @headerOnly gEncoded == old(gEncoded) + 1
 //@ func (*amevBlock).GetHashData
 //@   modifies gEncoded
+// what is encoded is this block's own header, not a copy that was changed on the way
+//@   at call *.EncodeBinary: assert [C19] @ownHeader recv.ConsensusData == b.base.ConsensusData && recv.Index == b.base.Index && recv.Timestamp == b.base.Timestamp && recv.Version == b.base.Version && recv.MerkleRoot == b.base.MerkleRoot && recv.PrevHash == b.base.PrevHash && recv.NextConsensus == b.base.NextConsensus
 //@   ensures [C19] @headerOnly gEncoded == old(gEncoded) + 1
 
 // ---- envelope: message type, view, and the payload header ----
@@ -254,7 +258,10 @@ package consensus
 //@   loop 1: invariant 0 <= idx && idx <= len(m.preCommitPayloads) && len(retvar) == len(m.preCommitPayloads)
 //@   loop 1: invariant forall(k, 0, idx, retvar[k] != nil && as(Payload, retvar[k]).message.cmType == dbft.PreCommitType && as(Payload, retvar[k]).message.viewNumber == p.ViewNumber() && as(Payload, retvar[k]).height == p.Height() && as(Payload, retvar[k]).hash == nil)
 //@   loop 1: invariant forall(k, 0, idx, as(Payload, retvar[k]).validatorIndex == m.preCommitPayloads[k].ValidatorIndex)
+//@   loop 1: invariant forall(k, 0, idx, as(Payload, retvar[k]).message.payload != nil && as(preCommit, as(Payload, retvar[k]).message.payload).magic == be32(m.preCommitPayloads[k].Data))
 //@   ensures [C19] @onePerEntry len(result) == len(m.preCommitPayloads)
+// the rebuilt pre-commit carries the stored data (same byte order as (preCommit).Data writes)
+//@   ensures [C19] @sameData forall(k, 0, len(result), as(preCommit, as(Payload, result[k]).message.payload).magic == be32(m.preCommitPayloads[k].Data))
 //@   ensures [C19] @sameSlot forall(k, 0, len(result), result[k] != nil && as(Payload, result[k]).message.cmType == dbft.PreCommitType && as(Payload, result[k]).message.viewNumber == p.ViewNumber() && as(Payload, result[k]).height == p.Height() && as(Payload, result[k]).hash == nil)
 //@   ensures [C19] @sameSender forall(k, 0, len(result), as(Payload, result[k]).validatorIndex == m.preCommitPayloads[k].ValidatorIndex)
 
@@ -363,8 +370,10 @@ package consensus
 //@ func NewPreCommit
 //@   requires len(data) >= 4
 //@   ensures [C19] @fresh result != nil
+//@   ensures [C19] @bigEndian as(preCommit, result).magic == be32(data)
 //@ func (preCommit).Data
 //@   ensures [C19] @fourBytes len(result) == 4
+//@   ensures [C19] @bigEndian be32(result) == c.magic
 //@ func (*preBlock).Data
 //@   ensures [C19] @fourBytes len(result) == 4
 
